@@ -98,7 +98,7 @@ def nutils_hash(data):
     if isinstance(data, numpy.generic):
         # normalize Numpy's scalar types so that their nutils_hash are equal to
         # that of Python's counterparts, similar to Python's builtin hash
-        t = dict(b=bool, i=int, f=float, c=complex)[data.dtype.kind]
+        t = dict(b=bool, u=int, i=int, f=float, c=complex)[data.dtype.kind]
         data = t(data)
 
     t = type(data)
